@@ -181,12 +181,17 @@ Fixpoint wexec (s : state) (ops : list wop) : outcome state :=
 
 (* ---------------------------------------------------------------- the public callers
    def net_io_counters(pernic=False, nowrap=True):
-       rawdict = _psplatform.net_io_counters()
-       if nowrap: rawdict = _wrap_numbers(rawdict, 'psutil.net_io_counters')
+       if nowrap:
+           with _nowrap_lock:                      (commit 3202409; see the two-thread part below)
+               rawdict = _psplatform.net_io_counters()
+               rawdict = _wrap_numbers(rawdict, 'psutil.net_io_counters')
+       else:
+           rawdict = _psplatform.net_io_counters()
        if not rawdict: return {} if pernic else None
        if pernic: ... return rawdict      (values re-wrapped as namedtuples)
        else: return snetio( *[sum(x) for x in zip( *rawdict.values())])
    disk_io_counters is the same with 'psutil.disk_io_counters' / perdisk.
+   [raw] of PCall is the dict the platform function returned for this call.
    [legacy = true] is the code before commit e278b23, where the empty test came
    first, so that an empty listing never reached the wrap step (kept for the
    refuted theorem and the revert self-test). *)
